@@ -10,7 +10,9 @@ PROP = {'engine': 'srv',
                   'clause patterns in the reflector model are the fragment {literal, \\\\c, *, ?, top-level comma}; the full pattern syntax is property C15; '
                   'glibc regcomp/regexec trusted as there',
                   'content filters in the reflector engine are int32 comparisons on one field; the full filter language is property C14'],
- 'assumptions': ["no quiet flags / disabled subscriptions in the oracle's scope", 'F10, F11, F12 shapes excluded from the random stream'],
+ 'assumptions': ["SUBSCRIBE paths are GoodPaths (no empty clause; C15's pattern laws) in the theorems about marks and notifications",
+                 "no quiet flags / disabled subscriptions / explicit GETDATA in the mirror oracle's scope",
+                 'F10 shape excluded from the random stream (known finding with corpus trigger)'],
  'rule': 'generated histories over 2-5 sessions on two hosts: attach/detach, SETDATA (incl. ADDTOINDEX), REMOVEDATA with wildcards, SUBSCRIBE with/without '
          'int32 filters, re-filter, unsubscribe, reflect-to-self, max-items, default route, client-to-client Messages with 0-2 key patterns, '
          'INSERTORDEREDDATA, REORDERDATA, BATCH, PING, FindMatchingNodes; every 4th case is the hostile stream (arbitrary structurally valid Messages with '
@@ -22,15 +24,24 @@ PROP = {'engine': 'srv',
 TEXT = {'design_ref': 'DESIGN.md section 4, C04',
  'technique': 'Lean 4 theorem (batching of update Messages is invisible for every flush schedule and max-items value) over the reflector model + differential '
               'correspondence of the full notification pipeline with a real in-process server + direct mirror-vs-matching-set oracle',
- 'text': "Proved in Lean: however the server cuts one subscriber's stream of node events into PR_RESULT_DATAITEMS Messages (max-items limit of any value, "
+ 'text': "Proved in Lean: (1) however the server cuts one subscriber's stream of node events into PR_RESULT_DATAITEMS Messages (max-items limit of any value, "
          'forced flush on remove-after-set, arbitrary extra flushes caused by other sessions), a client applying every Message in order (removals first, then '
-         'sets) ends with exactly the event-by-event result (`batching_invisible`, `feed_sound`).  Which events reach which subscriber (reference-counted '
-         "subscriber tables, filter transitions, initial snapshots, cleanup) is part of the executable reflector model, which reproduces the real server's "
-         "deliveries and per-node subscriber tables exactly on every generated history; the direct oracle compares each client's replayed mirror with the "
-         'brute-force matching set (PathMatcher::MatchesPath + QueryFilter::Matches over the in-process tree) at every quiescent point.  The full `converges` '
-         'theorem (statement kept in Props/C04.lean) is not proved yet: level is proof for the batching layer, correspondence + oracle for the rest.',
- 'note': "Partial: `converges` over whole histories is validated (model correspondence + direct oracle), not proved.  Oracle premises: other sessions' nodes "
-         'only; histories with quiet flags / disabled subscriptions / explicit GETDATA are exempt by definition of those features; two subscription spellings '
-         'normalising to one path (F10), empty path clauses (F11) and re-filtering with overlapping subscriptions (F12) are kept out of the random stream.  '
-         'The order in which the subscribers of one node are notified comes from a content-addressed table cache and is not modelled: max-items is only used '
-         'in single-subscriber cases.'}
+         'sets) ends with exactly the event-by-event result (`batching_invisible`, `feed_sound`); (2) in every state reachable from the empty server by '
+         "attach, detach, any command and any push/pump, every node's subscriber table counts for every attached session exactly the subscription entries of "
+         "that session whose clauses match the node's path, holds no entry of a departed session and no zero entry (`invariant_reach`, `marks_correct`, "
+         '`marks_correct_detached` — through the C05 traversal theorem and the C13 tree invariant); (3) a node change notifies exactly the sessions with a '
+         'positive mark (other than the author unless it reflects to itself), at most one event per session, and the event is the filter transition rule — '
+         'matched before/matches now: set, before and not now: removal, neither: nothing (`nodeChanged_exact`, `notify_exact`, `notify_exact_reach`, '
+         '`invariant_primitives`); (4) per node, applying that event to a correct mirror entry gives the correct entry again and touches no other path '
+         "(`step_mirror_partial`).  Tie: the reflector model reproduces the real server's deliveries and per-node subscriber tables exactly on every generated "
+         "history (incl. several payloads in one SETDATA, re-filtering next to overlapping subscriptions, BATCH); the direct oracle compares each client's "
+         'replayed mirror with the brute-force matching set (PathMatcher::MatchesPath + QueryFilter::Matches over the in-process tree) at every quiescent '
+         'point.',
+ 'note': 'Partial: the composition of (1)-(4) over whole histories (`converges`: the replayed mirror equals the matching set after every history) is not '
+         'proved — missing are the structured twin of the text inbox that ties `nodeChangedAux` to the abstract pipe of (1), the per-handler event lists '
+         '(snapshot on subscribe, client drop rule on unsubscribe, recursive removal, detach of another session) and the induction over histories; that part '
+         'is decided by correspondence + the mirror oracle.  Hypothesis of (2),(3): every SUBSCRIBE path is a GoodPath (no empty clause — F11 is reproduced on '
+         "the model as the counter-example — and the two pattern-layer laws of C15).  Oracle premises: other sessions' nodes only; clients that used quiet "
+         'flags / disabled subscriptions / explicit GETDATA are exempt by definition of those features.  Open finding F10 (two spellings of one subscription '
+         'path) is kept out of the random stream and runs from corpus/C04/srv-known-F10.ops.  The order in which the subscribers of one node are notified '
+         'comes from a content-addressed table cache and is not modelled: max-items is only used in single-subscriber cases.'}
